@@ -195,3 +195,64 @@ def gen_callsites(repo):
     out.append("]")
     out.append("end PqV.Gen.CallSites")
     return "\n".join(out) + "\n"
+
+
+def _dtype_name(node):
+    """np.dtype('int32') -> 'int32'; pd.Int8Dtype() -> 'Int8'; pd.BooleanDtype() -> 'boolean'"""
+    if isinstance(node, ast.Call):
+        f = node.func
+        if isinstance(f, ast.Attribute) and f.attr == "dtype" and node.args and isinstance(node.args[0], ast.Constant):
+            return str(node.args[0].value).lstrip("<")
+        if isinstance(f, ast.Attribute) and f.attr.endswith("Dtype"):
+            n = f.attr[:-5]
+            return "boolean" if n == "Boolean" else n
+    raise Unsupported("dtype expression " + ast.dump(node)[:80])
+
+
+def _key_name(node):
+    if isinstance(node, ast.Attribute):
+        return node.attr
+    if isinstance(node, ast.Constant):
+        return str(node.value)
+    if isinstance(node, ast.Call):
+        return _dtype_name(node)
+    raise Unsupported("table key " + ast.dump(node)[:80])
+
+
+@register("Typemap")
+def gen_typemap(repo):
+    src = open(os.path.join(repo, "fastparquet", "converted_types.py")).read()
+    tree = ast.parse(src)
+    tables = {}
+    for node in tree.body:
+        if isinstance(node, ast.Assign) and len(node.targets) == 1 and isinstance(node.targets[0], ast.Name) \
+                and node.targets[0].id in ("simple", "complex", "nullable", "pandas_nullable") and isinstance(node.value, ast.Dict):
+            tables[node.targets[0].id] = [(_key_name(k), _dtype_name(v)) for k, v in zip(node.value.keys, node.value.values)]
+    for t in ("simple", "complex", "nullable", "pandas_nullable"):
+        if t not in tables:
+            raise Unsupported(f"table {t} not found in converted_types.py")
+    api = open(os.path.join(repo, "fastparquet", "api.py")).read()
+    atree = ast.parse(api)
+    cls = [n for n in atree.body if isinstance(n, ast.ClassDef) and n.name == "ParquetFile"][0]
+    fn = [n for n in cls.body if isinstance(n, ast.FunctionDef) and n.name == "_dtypes"][0]
+    fsrc = ast.unparse(fn)
+    missing_means_nulls = "st.get(3) is None" in fsrc
+    off_is_dtype = None
+    for node in ast.walk(fn):
+        if isinstance(node, ast.If) and "pandas_nulls" in ast.dump(node.test) and node.orelse:
+            for st in node.orelse:
+                if isinstance(st, ast.Assign):
+                    v = st.value
+                    off_is_dtype = isinstance(v, ast.Call) and isinstance(v.func, ast.Attribute) and v.func.attr == "dtype"
+    if off_is_dtype is None:
+        raise Unsupported("pandas_nulls-off branch of _dtypes not found")
+    out = ["-- REGENERATED on every run by tools/translate_callsites.py from converted_types.py / api.py — do not edit",
+           "namespace PqV.Gen.Typemap"]
+    for t, rows in tables.items():
+        out.append(f"def {t if t != 'complex' else 'complexT'} : List (String × String) := [" + ", ".join(f'("{k}", "{v}")' for k, v in rows) + "]")
+    out.append(f"/-- `_dtypes`: statistics without a null count are treated as \"may have nulls\" -/")
+    out.append(f"def missingNullCountMeansNulls : Bool := {'true' if missing_means_nulls else 'false'}")
+    out.append(f"/-- `_dtypes`, pandas_nulls off: the promoted entry is a dtype object (not a float value) -/")
+    out.append(f"def nullsOffIsDtype : Bool := {'true' if off_is_dtype else 'false'}")
+    out.append("end PqV.Gen.Typemap")
+    return "\n".join(out) + "\n"
